@@ -4,8 +4,8 @@ CONSTANTS
   StepThresh = 1
   SFwd2 = 9999
   SBwd2 = 9999
-  Fwd2 = 6
-  Bwd2 = 6
+  Fwd2 = 5
+  Bwd2 = 9999
   Acc2 = 9999
   TrackFreq = TRUE
   F0 = 0
@@ -14,12 +14,13 @@ CONSTANTS
   SlewMax = 200
   MaxSamples = 1
   Ghosts = FALSE
-  OffPos = {0, 1, 2, 3}
-  OffNeg = {1, 2}
+  Readd = TRUE
+  OffPos = {0, 1, 2}
+  OffNeg = {1}
   LeapVals = {"none"}
   Wides = {FALSE}
   MaxChan = 1
-  Bound = 6
+  Bound = 2
   UsableVals = {TRUE}
 INIT Init
 NEXT Next
